@@ -235,6 +235,23 @@ def _normalised_to_none(fnode, name: str) -> bool:
                 any(isinstance(z, ast.Assign) and norm_stmt(z.targets[0]) == name and
                     isinstance(z.value, ast.Constant) and z.value.value is None for z in x.body):
             return True
+        # `if len(name) == 0: return None` ... `return name`   /   `if ..: y = None else: y = name`
+        if isinstance(x, ast.If) and name in {y.id for y in ast.walk(x.test) if isinstance(y, ast.Name)}:
+            def gives(block, want_none):
+                for z in block:
+                    v = z.value if isinstance(z, (ast.Return, ast.Assign)) else None
+                    if v is None and not isinstance(z, ast.Return):
+                        continue
+                    if want_none and ((isinstance(z, ast.Return) and (z.value is None or (
+                            isinstance(z.value, ast.Constant) and z.value.value is None))) or (
+                            isinstance(z, ast.Assign) and isinstance(z.value, ast.Constant) and z.value.value is None)):
+                        return True
+                    if not want_none and v is not None and norm_stmt(v) == name:
+                        return True
+                return False
+            if (gives(x.body, True) and (gives(x.orelse, False) or not x.orelse)) or \
+                    (gives(x.orelse, True) and gives(x.body, False)):
+                return True
         if isinstance(x, ast.BoolOp) and isinstance(x.op, ast.Or) and len(x.values) == 2 and \
                 norm_stmt(x.values[0]) == name and isinstance(x.values[1], ast.Constant) and x.values[1].value is None:
             return True
